@@ -53,6 +53,17 @@ CLAIMED["C16"] = dict(
     technique="Lean 4 theorems over ALL reply scripts (bookkeeping) + kernel-evaluated round trips through an executable device spec; differential correspondence on histories",
     note="Set iteration order of property ids is not modelled; comparisons are order-insensitive on property records.")
 
+CLAIMED["C02"] = dict(
+    text="Theorems (Lean 4, unbounded): for EVERY frame whose packet fits the 2-byte length field (0..65,463 bytes; 0..255 included), every device id < 2^64 and every 8-byte timestamp the packet the model of _Packet.encode emits is byte-for-byte the packet of an independent field-by-field encoder and is decoded by an independent strict decoder to the identical id and frame; conversely every packet the independent encoder produces (any id, timestamp, header filler) is decoded by the model of _Packet.decode to exactly that frame; outside the domain encode raises OverflowError. AES-128 invertibility (decrypt o encrypt = id for all keys/blocks), ECB/PKCS7 round trips and lengths are PROVED for the very Lean AES the driver runs (no cipher axioms, no hypotheses); ENC_KEY = md5(SIGN_KEY) and both constants regenerated from lan.py are checked against the spec's copies by kernel evaluation. Tie: byte-exact correspondence of the real _Packet.encode/decode with the model for all lengths 0..255 x boundary ids (timestamp read back), and the spec decoder/encoder applied to real output/input.",
+    design="DESIGN.md §6 C02, §5",
+    technique="Lean 4 round-trip theorems model vs independent spec over a fully proved AES/PKCS7; differential correspondence with the real codec",
+    note="Remaining crypto assumption: Lean AES/MD5 = pycryptodome/hashlib (sampled by the correspondence and by NIST/RFC vectors evaluated in the kernel).")
+CLAIMED["C03"] = dict(
+    text="Theorems (Lean 4, unbounded): whatever bytes arrive, the decoder gets past its checks only if they carry the marker, a length field within what arrived and a last-16-byte tag equal to the keyed MD5 of everything before it (exact acceptance condition); every proper prefix of an authentic packet, any alteration confined to the tag, any alteration of the marker and any increased length field are rejected with a protocol error outright; an alteration of the signed part (header/payload, any number of bytes) that keeps length field and tag can only be accepted if the original and altered signed texts are an explicit MD5 collision (reduction; the honest ceiling for a fixed-width hash). Tie: every single-bit flip at every position, every truncation length, single-byte substitutions and random multi-byte corruptions of authentic packets for frame lengths {0,1,15,16,17,31,32,33,100,255} through the real _Packet.decode and the model (~23k cases per run).",
+    design="DESIGN.md §6 C03, §5",
+    technique="Lean 4 exact-acceptance and outright-rejection theorems + reduction to a named MD5 collision; exhaustive bit-flip/truncation sweep",
+    note="Tamper-evidence against an adversary who knows the fixed key is outside the property (a re-signed packet is not an alteration of an authentic one; see C09).")
+
 NOT_YET = {
 }
 
